@@ -76,3 +76,23 @@ Example mid_drain_order :
   filter (fun e => match e with EvDeliver _ _ => true | _ => false end) (rev (trace c))
   = [EvDeliver 1 (DRes 0); EvDeliver 2 (DRes 0); EvDeliver 3 (DRes 0)].
 Proof. vm_compute. reflexivity. Qed.
+
+(* queue full (AnswerQueueSize 1): call 1 is queued on answer 0, call 2 (pipelined on the answer
+   of the queued call 1, second level) and call 3 (on answer 0, first level) block on aq.draining;
+   call 0 returns an error: as soon as the goroutine is inside reject both callers can move, before
+   any queued call has been rejected; in the end every call has completed with the error of 0 *)
+Definition ex_params_full : params :=
+  mkParams 1 1 (fun x => match x with 0 => Direct | 2 => Pipe 1 | _ => Pipe 0 end) (fun _ => None) true
+           (fun _ => false).
+Definition ex_sched_full : list tid :=
+  [TStart 0; TAck 0; TStart 0; TPipe 1; TPipe 2; TPipe 3; TRet 0 true; TImpl 0].
+Example full_queue_reject_releases :
+  let c := run ex_params_full (init ex_params_full) ex_sched_full in
+  ppc c 1 = PQueued /\ ppc c 2 = PWaitDrain /\ ppc c 3 = PWaitDrain /\ aq_ph c 0 = ADraining 0 /\
+  step ex_params_full c (TPipe 2) <> None /\ step ex_params_full c (TPipe 3) <> None.
+Proof. vm_compute. repeat split; discriminate. Qed.
+Example full_queue_reject_completes :
+  let c := run ex_params_full (init ex_params_full)
+             (ex_sched_full ++ [TPipe 2; TPipe 3; TPipe 2; TPipe 3; TImpl 0; TImpl 0; TImpl 0; TImpl 0; TImpl 0]) in
+  compl c 0 = [CErr 0] /\ compl c 1 = [CErr 0] /\ compl c 2 = [CErr 0] /\ compl c 3 = [CErr 0] /\ ipc c 0 = IDone.
+Proof. vm_compute. repeat split. Qed.
